@@ -267,6 +267,51 @@ fn run_read_dyn(wbits: usize, nwords: usize, tail: usize, prefix: &[usize]) -> (
 
 // ---- seekable adapter over Cursor: word positions (explicit-state BFS vs byte-vector model)
 
+/// A Cursor that can be told to fail in the middle of the next word: the next read delivers at most
+/// `k` bytes and the read after that fails with a hard error (once).  Otherwise it is the Cursor.
+#[derive(Debug, Clone)]
+struct FaultCursor {
+    inner: std::io::Cursor<Vec<u8>>,
+    /// Some(k): short read of k bytes pending; None: no fault armed
+    short: Option<usize>,
+    fail_next: bool,
+}
+impl FaultCursor {
+    fn new(c: std::io::Cursor<Vec<u8>>) -> Self {
+        FaultCursor { inner: c, short: None, fail_next: false }
+    }
+    fn into_inner(self) -> Vec<u8> {
+        self.inner.into_inner()
+    }
+}
+impl std::io::Read for FaultCursor {
+    fn read(&mut self, buf: &mut [u8]) -> std::io::Result<usize> {
+        if self.fail_next {
+            self.fail_next = false;
+            return Err(std::io::Error::new(std::io::ErrorKind::Other, "injected hard error"));
+        }
+        if let Some(k) = self.short.take() {
+            self.fail_next = true;
+            let n = k.min(buf.len());
+            return self.inner.read(&mut buf[..n]);
+        }
+        self.inner.read(buf)
+    }
+}
+impl std::io::Write for FaultCursor {
+    fn write(&mut self, buf: &[u8]) -> std::io::Result<usize> {
+        self.inner.write(buf)
+    }
+    fn flush(&mut self) -> std::io::Result<()> {
+        self.inner.flush()
+    }
+}
+impl std::io::Seek for FaultCursor {
+    fn seek(&mut self, pos: std::io::SeekFrom) -> std::io::Result<u64> {
+        self.inner.seek(pos)
+    }
+}
+
 fn cursor_bfs<W: Word>(wbits: usize, depth: usize, out: &mut Outcome)
 where
     W::Bytes: Default + AsMut<[u8]> + AsRef<[u8]>,
@@ -278,18 +323,26 @@ where
         Read,
         Write(u8),
         Seek(u64),
+        /// read_word during which the source delivers k bytes and then fails hard
+        ReadFault(usize),
     }
     let wb = W::BYTES;
     let init: Vec<u8> = (0..3 * wb).map(|i| (i as u8).wrapping_mul(29).wrapping_add(3)).collect();
-    let ops: Vec<Op> = vec![Op::Read, Op::Write(0xA1), Op::Write(0x5E), Op::Seek(0), Op::Seek(1), Op::Seek(2), Op::Seek(3), Op::Seek(4), Op::Seek(6)];
+    let mut ops: Vec<Op> = vec![Op::Read, Op::Write(0xA1), Op::Write(0x5E), Op::Seek(0), Op::Seek(1), Op::Seek(2), Op::Seek(3), Op::Seek(4), Op::Seek(6)];
+    if wb > 1 {
+        ops.push(Op::ReadFault(1));
+        if wb > 2 {
+            ops.push(Op::ReadFault(wb - 1));
+        }
+    }
     // state = (real adapter, model bytes, model byte position)
     let mut seen: HashSet<String> = HashSet::new();
-    let mut q: VecDeque<(WordAdapter<W, Cursor<Vec<u8>>>, Vec<u8>, usize, Vec<Op>)> = VecDeque::new();
+    let mut q: VecDeque<(WordAdapter<W, FaultCursor>, Vec<u8>, usize, Vec<Op>)> = VecDeque::new();
     // the adapter is created over a stream at offset 0 and over streams already positioned after 1 or 2 words
     for start_words in [0usize, 1, 2] {
         let mut c = Cursor::new(init.clone());
         c.set_position((start_words * wb) as u64);
-        let a0 = WordAdapter::<W, Cursor<Vec<u8>>>::new(c);
+        let a0 = WordAdapter::<W, FaultCursor>::new(FaultCursor::new(c));
         seen.insert(format!("{:?}", a0));
         q.push_back((a0, init.clone(), start_words * wb, vec![]));
     }
@@ -301,13 +354,13 @@ where
         for tail in [1usize, wb - 1] {
             let mut ragged = init.clone();
             ragged.extend((0..tail).map(|i| 0xC0u8 + i as u8));
-            let a0 = WordAdapter::<W, Cursor<Vec<u8>>>::new(Cursor::new(ragged.clone()));
+            let a0 = WordAdapter::<W, FaultCursor>::new(FaultCursor::new(Cursor::new(ragged.clone())));
             if seen.insert(format!("{:?}", a0)) {
                 q.push_back((a0, ragged.clone(), 0, vec![]));
             }
             let mut c = Cursor::new(ragged.clone());
             c.set_position((wb + tail) as u64);
-            let a1 = WordAdapter::<W, Cursor<Vec<u8>>>::new(c);
+            let a1 = WordAdapter::<W, FaultCursor>::new(FaultCursor::new(c));
             if seen.insert(format!("{:?}/unknown", a1)) {
                 q.push_back((a1, ragged, UNKNOWN, vec![]));
             }
@@ -365,6 +418,21 @@ where
                             mp2 = mp + wb;
                         }
                         Err(e) => fail = Some(format!("write_word failed: {}", e)),
+                    }
+                }
+                Op::ReadFault(k) => {
+                    // arm the fault on the real object (the adapter itself has no such knob: rebuild it
+                    // around the same stream), read, and expect a reported error; only seeks go on
+                    let mut fc = a2.into_inner();
+                    fc.short = Some(*k);
+                    fc.fail_next = false;
+                    a2 = WordAdapter::<W, FaultCursor>::new(fc);
+                    if mp + wb > m.len() {
+                        continue;
+                    }
+                    match a2.read_word() {
+                        Err(_) => mp2 = UNKNOWN,
+                        Ok(_) => fail = Some(format!("read_word returned a word although the source failed after {} bytes of it", k)),
                     }
                 }
                 Op::Seek(k) => match a2.set_word_pos(*k) {
@@ -551,7 +619,7 @@ pub fn c11(ctx: &Ctx) -> (CheckMeta, Outcome) {
     let meta = CheckMeta {
         property: "C11".into(),
         level: "model_checking".into(),
-        rule: "deviation-bounded exploration of the environment: the Read/Write wrapped by WordAdapter answers every call by an explorer choice (write: whole buffer | every short count 0..len-1 | Interrupted | hard error; flush: Ok | Err; read: as much as possible | every short count | Interrupted | hard error | EOF); ALL schedules with at most 3 (thorough 5) deviations from the default answer, for word sizes 8..128 and sequences of 1..3 words (reads: plus a partial trailing word of 0, 1, W/8-1 bytes); oracle: every write_word that returned Ok has put exactly its native-endian bytes, once and in order, into the sink; every Ok(read_word) is the next W/8 source bytes and exactly those were consumed; a partial trailing word is an error. states = schedules executed, transitions = environment calls. Plus explicit-state BFS (depth 6, thorough 7) of WordAdapter over a seekable Cursor (read_word, write_word, set_word_pos 0..6, word_pos) against a byte-vector model, starting from a stream at offset 0, from streams already positioned after 1 or 2 words, from streams with a partial trailing word (a failed read leaves the position unknown: only seeks continue, and must address the word they name) and from streams positioned mid-word: word_pos = words preceding the cursor after every call, seeking addresses that word. Bit streams written through the adapter over three sinks (Vec, a sink accepting 3 bytes per call, a sink that commits only on flush) with every finisher, for totals of exactly 1, 2, 3 words and off-boundary lengths, must leave exactly the memory image in the sink; the same histories over a sink whose k-th write call fails (every k, every finisher including a plain drop): something must report the failure or the sink holds the whole image; further bit streams through the adapter vs memory are part of C01 (backend 'adapter'), C02/C07 (backends 'cursor', 'bufreader')".into(),
+        rule: "deviation-bounded exploration of the environment: the Read/Write wrapped by WordAdapter answers every call by an explorer choice (write: whole buffer | every short count 0..len-1 | Interrupted | hard error; flush: Ok | Err; read: as much as possible | every short count | Interrupted | hard error | EOF); ALL schedules with at most 3 (thorough 5) deviations from the default answer, for word sizes 8..128 and sequences of 1..3 words (reads: plus a partial trailing word of 0, 1, W/8-1 bytes); oracle: every write_word that returned Ok has put exactly its native-endian bytes, once and in order, into the sink; every Ok(read_word) is the next W/8 source bytes and exactly those were consumed; a partial trailing word is an error. states = schedules executed, transitions = environment calls. Plus explicit-state BFS (depth 6, thorough 7) of WordAdapter over a seekable Cursor (read_word, write_word, set_word_pos 0..6, word_pos) against a byte-vector model, starting from a stream at offset 0, from streams already positioned after 1 or 2 words, from streams with a partial trailing word (a failed read - at the ragged end, or because the source delivered part of a word and then failed hard - leaves the position unknown: only seeks continue, and must address the word they name) and from streams positioned mid-word: word_pos = words preceding the cursor after every call, seeking addresses that word. Bit streams written through the adapter over three sinks (Vec, a sink accepting 3 bytes per call, a sink that commits only on flush) with every finisher, for totals of exactly 1, 2, 3 words and off-boundary lengths, must leave exactly the memory image in the sink; the same histories over a sink whose k-th write call fails (every k, every finisher including a plain drop): something must report the failure or the sink holds the whole image; further bit streams through the adapter vs memory are part of C01 (backend 'adapter'), C02/C07 (backends 'cursor', 'bufreader')".into(),
         assumptions: vec!["the environment alphabet covers what std::io::Read/Write allow: short transfers, Interrupted, errors".into()],
     };
     (meta, out)
